@@ -114,6 +114,7 @@ func (bf *buffer) Close() error {
 	bf.pcond.L.Lock()
 	vpoint(bf, vpLockedP)
 	bf.pcond.Broadcast()
+	vpoint(bf, vpBcastP)
 	bf.pcond.L.Unlock()
 	vpoint(bf, vpUnlockedP)
 
@@ -121,6 +122,7 @@ func (bf *buffer) Close() error {
 	bf.ccond.L.Lock()
 	vpoint(bf, vpLockedC)
 	bf.ccond.Broadcast()
+	vpoint(bf, vpBcastC)
 	bf.ccond.L.Unlock()
 	vpoint(bf, vpUnlockedC)
 
@@ -237,6 +239,7 @@ func (bf *buffer) Read(p []byte) (int, error) {
 			bf.pcond.L.Lock()
 			vpoint(bf, vpLockedP)
 			bf.pcond.Broadcast()
+			vpoint(bf, vpBcastP)
 			bf.pcond.L.Unlock()
 			vpoint(bf, vpUnlockedP)
 
@@ -271,6 +274,7 @@ func (bf *buffer) Read(p []byte) (int, error) {
 			bf.pcond.L.Lock()
 			vpoint(bf, vpLockedP)
 			bf.pcond.Broadcast()
+			vpoint(bf, vpBcastP)
 			bf.pcond.L.Unlock()
 			vpoint(bf, vpUnlockedP)
 			return n, nil
@@ -320,6 +324,7 @@ func (bf *buffer) Write(p []byte) (int, error) {
 	bf.ccond.L.Lock()
 	vpoint(bf, vpLockedC)
 	bf.ccond.Broadcast()
+	vpoint(bf, vpBcastC)
 	bf.ccond.L.Unlock()
 	vpoint(bf, vpUnlockedC)
 
@@ -488,6 +493,7 @@ func (bf *buffer) ReadCommit(n int) (int, error) {
 		bf.pcond.L.Lock()
 		vpoint(bf, vpLockedP)
 		bf.pcond.Broadcast()
+		vpoint(bf, vpBcastP)
 		bf.pcond.L.Unlock()
 		vpoint(bf, vpUnlockedP)
 		return n, nil
@@ -529,6 +535,7 @@ func (bf *buffer) WriteCommit(n int) (int, error) {
 	bf.ccond.L.Lock()
 	vpoint(bf, vpLockedC)
 	bf.ccond.Broadcast()
+	vpoint(bf, vpBcastC)
 	bf.ccond.L.Unlock()
 	vpoint(bf, vpUnlockedC)
 
